@@ -10,6 +10,9 @@ GEN_Q = {"budget": 2, "stmts": 2, "atoms": 1, "maxlist": 1}
 GEN_T = {"budget": 3, "stmts": 2, "atoms": 1, "maxlist": 1}
 GEN_ATOMS_Q = {"budget": 1, "stmts": 2, "atoms": 4, "maxlist": 2}
 GEN_ATOMS_T = {"budget": 2, "stmts": 1, "atoms": 8, "maxlist": 2}
+# expression palette: leaves are small fixed expressions (ident, a={}, function(){}, [a], (a), -a, a++, a.p, a(), multi-line backtick string, a+a, "s")
+PAL_Q = {"budget": 1, "stmts": 1, "palette": 12, "palettemask": 1 + 2 + 32 + 512 + 1024, "maxlist": 1, "nofunc": 1}
+PAL_T = {"budget": 1, "stmts": 1, "palette": 12, "maxlist": 1, "nofunc": 1}
 GEN_ASSUME = [
     "programs: every syntax tree of the subset within the node budget (internal nodes <= 'budget', <= 'stmts' top-level statements, lists <= 'maxlist' elements, 'atoms' atom kinds), produced by the generator of DESIGN.md §4.2; tree shape, separators and parenthesisation explored exhaustively by forking",
     "solver-quantified per path: operator identity inside each ECMAScript precedence class, every line-break flag ECMAScript permits, all token positions (0..2^20)",
@@ -22,6 +25,31 @@ SCRIPT_ASSUME = [
 ]
 
 CHECKS = {
+    "C01": {
+        "assumptions": GEN_ASSUME + [
+            "sufficient syntactic condition instead of running a JavaScript engine: the emitted text, read by the independent ECMAScript scanner R2, is the same token sequence as the source (quote style and statement-terminating ';' aside), every source statement boundary (and every `else` after an expression-ended branch) is still a boundary under the ECMAScript ASI rules (';', '}', or a line break followed by a token that cannot continue the line), and no line break stands at a restricted production; equal token sequences with equal statement boundaries are the same program, hence the same behaviour",
+            "source side: the token script stands for the source text (C10 relates text to tokens, C02 tokens to the ECMAScript tree); literal values are C07",
+            "configurations: compact, pretty with semicolons, pretty without semicolons, pretty with tabs; with and without source map (code must be identical)",
+        ],
+        "runs": [
+            {"harnesses": [H + "ZZH1Behaviour"], "flags": VLQ_REDIRECT, "quick": dict(GEN_Q, stmts=2), "thorough": GEN_T},
+            {"harnesses": [H + "ZZH1Behaviour"], "flags": VLQ_REDIRECT, "quick": dict(GEN_Q, budget=1, trivia=1, triviakinds=5), "thorough": dict(GEN_Q, trivia=1, triviakinds=3)},
+            {"harnesses": [H + "ZZH1Behaviour"], "flags": VLQ_REDIRECT, "quick": {"budget": 0, "stmts": 3, "palette": 12, "nofunc": 1}, "thorough": {"budget": 1, "stmts": 2, "palette": 6, "maxlist": 1, "nofunc": 1}},
+            {"harnesses": [H + "ZZH1Behaviour"], "flags": VLQ_REDIRECT, "quick": PAL_Q, "thorough": PAL_T},
+        ],
+    },
+    "C14": {
+        "assumptions": SCRIPT_ASSUME + GEN_ASSUME + [
+            "goroutine schedules are not explored (the executor has no scheduler). Reduction: jobs that only write memory they allocated themselves and only read shared memory that nobody writes are data-race-free and equal to their sequential runs; the premise is decided here: a confinement monitor reports every store, map update or in-place append that targets package-level state of xjs (frozen after package initialisation), a builder after configuration, or a tree during compilation",
+            "sequential histories: job A (default) / job B (registered operators at a solver-quantified level, interceptors, tolerant+smart modes) in orders ABA and BAB; one builder building parsers for two buffers alternately and two parsers alive at once; one tree compiled compact/pretty/with map repeatedly and one compiler object reused",
+            "a monitor hit counts as a violation only if the native replay shows an observable consequence (a failed equality assertion); otherwise the run is inconclusive",
+        ],
+        "runs": [
+            {"harnesses": [H + "ZZH14aJobs"], "flags": VLQ_REDIRECT, "quick": {"T": 1}, "thorough": {"T": 2}},
+            {"harnesses": [H + "ZZH14bBuilderReuse"], "flags": VLQ_REDIRECT, "quick": {"T": 1, "T1": 0}, "thorough": {"T": 2, "T1": 0}},
+            {"harnesses": [H + "ZZH14cCompile"], "flags": VLQ_REDIRECT, "quick": dict(GEN_Q, budget=1, trivia=1), "thorough": dict(GEN_Q, trivia=1)},
+        ],
+    },
     "C02": {
         "assumptions": GEN_ASSUME + ["expected tree: built by the generator with its own copy of the ECMAScript precedence levels, ASI rules and restricted productions; grouping nodes are ignored in the comparison"],
         "runs": [
@@ -54,6 +82,25 @@ CHECKS = {
             {"harnesses": [H + "ZZH6Pretty"], "flags": VLQ_REDIRECT, "quick": dict(GEN_Q, budget=1, trivia=1, indents=1, triviakinds=5), "thorough": dict(GEN_Q, trivia=1, indents=1, triviakinds=3)},
         ],
     },
+    "C07": {
+        "assumptions": [
+            "text level: the literal is the right-hand side of `x=<literal>;`, read by the real lexer, parser and compiler (compact and pretty: solver variable)",
+            "strings: both quote styles, content of <= K arbitrary bytes (ASCII by default; a second run allows any byte), restricted by Assume to texts that the reference scanner R2 reads as exactly one valid literal and whose value R4 can compute (valid escapes, no legacy octal); extra runs fix the prefix \\x, \\u, \\u{ so that long escapes fit into the window",
+            "backtick strings: <= K ASCII bytes, no ${ (substitutions are outside the subset); cooked value compared",
+            "numbers: <= K bytes that R5 accepts as one numeric literal; outside: `digits.` without fraction digits, leading-zero/legacy-octal forms, exponents of three or more digits (range errors), more than K characters",
+            "strconv.ParseInt / ParseFloat are replaced by syntax models of their error result (differentially tested against strconv at setup)",
+            "the emitted literal is re-read by R2/R4 (independent of the lexer); JavaScript engines are not run",
+        ],
+        "runs": [
+            {"harnesses": [H + "ZZH7Strings"], "quick": {"K": 4}, "thorough": {"K": 5}},
+            {"harnesses": [H + "ZZH7Strings"], "quick": {"K": 3, "ascii": 0}, "thorough": {"K": 4, "ascii": 0}},
+            {"harnesses": [H + "ZZH7Strings"], "quick": {"K": 3, "prefix": 1}, "thorough": {"K": 4, "prefix": 1}},
+            {"harnesses": [H + "ZZH7Strings"], "quick": {"K": 4, "prefix": 2}, "thorough": {"K": 5, "prefix": 2}},
+            {"harnesses": [H + "ZZH7Strings"], "quick": {"K": 5, "prefix": 3}, "thorough": {"K": 7, "prefix": 3}},
+            {"harnesses": [H + "ZZH7Templates"], "quick": {"K": 4}, "thorough": {"K": 5}},
+            {"harnesses": [H + "ZZH7Numbers"], "quick": {"K": 6}, "thorough": {"K": 8}},
+        ],
+    },
     "C08": {
         "assumptions": GEN_ASSUME + [
             "token start positions are solver variables (line, column in 0..2^20); generated positions are located in the final (trimmed) Code with the reference scanner R2; columns are counted in bytes",
@@ -64,6 +111,9 @@ CHECKS = {
             {"harnesses": [H + "ZZH8SourceMap"], "flags": VLQ_REDIRECT, "quick": dict(GEN_Q, budget=1, atoms=2, concretepos=0, pretty=0), "thorough": dict(GEN_Q, atoms=2, concretepos=0, pretty=0)},
             {"harnesses": [H + "ZZH8SourceMap"], "flags": VLQ_REDIRECT, "quick": dict(GEN_Q, budget=1, atoms=2, concretepos=0, pretty=1), "thorough": dict(GEN_Q, atoms=2, concretepos=0, pretty=1)},
             {"harnesses": [H + "ZZH8SourceMap"], "flags": VLQ_REDIRECT, "quick": dict(GEN_Q, budget=1, concretepos=0, pretty=1, trivia=1, triviakinds=5), "thorough": dict(GEN_Q, concretepos=0, pretty=1, trivia=1, triviakinds=3)},
+            # leaves from the expression palette (signs, multi-line backtick string, object value ...)
+            {"harnesses": [H + "ZZH8SourceMap"], "flags": VLQ_REDIRECT, "quick": dict(PAL_Q, concretepos=0, pretty=0), "thorough": dict(PAL_T, concretepos=0, pretty=0)},
+            {"harnesses": [H + "ZZH8SourceMap"], "flags": VLQ_REDIRECT, "quick": dict(PAL_Q, concretepos=0, pretty=1), "thorough": dict(PAL_T, concretepos=0, pretty=1)},
         ],
     },
     "C15": {
@@ -179,6 +229,14 @@ CHECKS = {
 _TRUST = "Trusted: xsym's SSA translation (witness paths replayed natively on every run), z3 (z3 5.1 and cvc5 re-decide assertion queries in the thorough tier), the generator/oracle in harness/overlay/zzverif/h. Token level: the scripted token source stands for the lexer (C10 relates text to tokens). Outside the claim: programs above the node/token budget."
 
 META = {
+    "C01": {
+        "text": "Bounded symbolic model checking of a syntactic sufficient condition for behaviour preservation: for every generated program within the budget (with comments, object/function values, signs, multi-line backtick strings as leaves) and every output configuration, the emitted text - read by an independent ECMAScript scanner - must be the same token sequence as the source with the same statement boundaries under the ECMAScript ASI rules and no line break at a restricted production; the source map option must not change the code.",
+        "design_ref": "DESIGN.md §7 C01", "note": _TRUST + " A JavaScript engine is not executed: behaviour equality is inferred from program identity; run-time semantics of engines are outside the claim.",
+    },
+    "C14": {
+        "text": "Bounded symbolic model checking of isolation over sequential histories plus a write-confinement monitor: job results are compared alone / before / after a differently configured job on solver-quantified token buffers, builders are reused and interleaved, trees are compiled repeatedly and in permuted configurations; every store into package-level state, a configured builder or a tree being compiled is reported by the executor. Concurrency is covered by the confinement argument only (no schedules are explored).",
+        "design_ref": "DESIGN.md §7 C14", "note": _TRUST + " The race detector and real goroutine schedules are outside this technique.",
+    },
     "C02": {
         "text": "Bounded symbolic model checking of the real parser on every generated subset program within the node budget: the program is unparsed to a token script in which operator identities (per precedence class), all permitted line breaks and all positions are solver variables, parsed by the real parser, and the resulting tree must equal the generated tree (ECMAScript precedence, associativity, ASI boundaries, restricted productions) on every feasible path.",
         "design_ref": "DESIGN.md §7 C02", "note": _TRUST,
@@ -190,6 +248,10 @@ META = {
     "C06": {
         "text": "Bounded symbolic model checking of the pretty printer's deferred-whitespace state machine on every generated program within the budget, with comments/blank lines on any token: pretty and compact outputs are re-read by the real lexer and parser and must give the generated tree; formatting the formatted output is a byte-for-byte fixed point; indent options change only leading whitespace; the semicolon option changes only statement terminators.",
         "design_ref": "DESIGN.md §7 C06", "note": _TRUST,
+    },
+    "C07": {
+        "text": "Bounded symbolic model checking of literal handling from text to text: for every string literal (both quote styles, any escape) and backtick string of <= K content bytes and every numeric literal of <= K characters that the reference scanner accepts, the real lexer, parser and printer (compact and pretty) are executed on the symbolic bytes and the emitted text must be exactly one literal whose value - computed by an independent implementation of the ECMAScript string value and template cooking rules - equals the source value (numbers: emitted verbatim).",
+        "design_ref": "DESIGN.md §7 C07", "note": _TRUST + " The value comparison is syntactic (R4); no JavaScript engine is run.",
     },
     "C08": {
         "text": "Bounded symbolic model checking of source-map generation end to end (parser stub -> Compile().WithSourceMap -> real encodeMappings -> reference decoder): with all token start positions solver variables, every decoded segment must sit on the start of a token of the generated code (found by an independent scanner), carry the source start of the same lexeme, be named iff it is an identifier, every identifier must be covered, and segments must be ordered - for compact and pretty output, with and without comments.",
